@@ -1,4 +1,5 @@
 """Shared generator / observers for the SAGE cone rows (used by C01, C02, C19, C03)."""
+import math
 import warnings
 from fractions import Fraction
 
@@ -32,7 +33,34 @@ HEADER = ('From Coq Require Import List Bool Arith ZArith QArith.\n'
           'Definition blocks_eqb (a : option (list block)) (b : option (list block)) : bool := option_eqb (list_eqb block_eqb) a b.\n'
           'Definition dblocks_eqb (a b : list block) : bool := list_eqb block_eqb a b.')
 
-DOMAINS = ['none', 'none', 'box', 'halfspace', 'ball', 'expcone', 'lifted', 'equality']
+DOMAINS = ['none', 'none', 'box', 'halfspace', 'ball', 'expcone', 'lifted', 'equality', 'eq_box', 'mixed']
+
+
+class adversarial_globals:
+    """while a constraint that was given ALL its settings explicitly is constructed, compiled or solved, the module-level defaults
+    hold the opposite value of every flag: code that consults the global SETTINGS instead of the constraint's own snapshot differs"""
+    KEYS = ('heuristic_reduction', 'presolve_trivial_age_cones', 'sum_age_force_equality', 'compact_dual', 'kernel_basis')
+
+    def __init__(self, settings):
+        self.settings = settings
+
+    def __enter__(self):
+        import sageopt.coniclifts.constraints.set_membership.sage_cones as sc
+        self.sc = sc
+        self.saved = dict(sc.SETTINGS)
+        for k in self.KEYS:
+            sc.SETTINGS[k] = not self.settings[k]
+
+    def __exit__(self, *a):
+        self.sc.SETTINGS.clear()
+        self.sc.SETTINGS.update(self.saved)
+
+
+def full_settings(partial):
+    d = {'heuristic_reduction': True, 'presolve_trivial_age_cones': False, 'sum_age_force_equality': False, 'compact_dual': True,
+         'kernel_basis': False}
+    d.update(partial)
+    return d
 
 
 def make_domain(rng, n, kind):
@@ -73,6 +101,21 @@ def make_domain(rng, n, kind):
         A = np.array([[1.0] + [float(rng.choice([0, 1, -1])) for _ in range(n - 1)]])
         b = np.array([float(rng.choice([0, -1]))])
         K = [('0', 1)]
+    elif kind == 'eq_box':
+        # an equality block FOLLOWED by other cones: x0 + a.x_rest + b0 = 0 inside the box [-1, 2]^n
+        A = np.vstack([np.array([[1.0] + [float(rng.choice([0, 1, -1])) for _ in range(n - 1)]]), np.eye(n), -np.eye(n)])
+        b = np.array([float(rng.choice([0, -1]))] + [1.0] * n + [2.0] * n)
+        K = [('0', 1), ('+', 2 * n)]
+    elif kind == 'mixed':
+        # x0 >= -1 ; x0 - x1 = 0 (trivial row when n = 1) ; |x| <= 2
+        r1 = np.zeros((1, n))
+        r1[0, 0] = 1.0
+        r2 = np.zeros((1, n))
+        if n >= 2:
+            r2[0, 0], r2[0, 1] = 1.0, -1.0
+        A = np.vstack([r1, r2, np.zeros((1, n)), np.eye(n)])
+        b = np.array([1.0, 0.0, 2.0] + [0.0] * n)
+        K = [('+', 1), ('0', 1), ('S', n + 1)]
     else:
         raise ValueError(kind)
     Kc = [cl.Cone(t, k) for t, k in K]
@@ -149,8 +192,8 @@ def build_primal(rng):
     comps = [cv[0], cv[1], cv[2]]
     cvals = gen_c(rng, m, comps)
     c = Expression(cvals)
-    settings = {'sum_age_force_equality': rng.random() < 0.3, 'presolve_trivial_age_cones': rng.random() < 0.25,
-                'heuristic_reduction': rng.random() < 0.7, 'kernel_basis': False}
+    settings = full_settings({'sum_age_force_equality': rng.random() < 0.3, 'presolve_trivial_age_cones': rng.random() < 0.25,
+                              'heuristic_reduction': rng.random() < 0.7, 'kernel_basis': False, 'compact_dual': rng.random() < 0.5})
     cover_mode = rng.choice(['auto', 'auto', 'full', 'user'])
     kwargs = {'settings': settings}
     alpha_np = np.array([[float(a) for a in r] for r in alpha]).reshape(m, n)
@@ -162,7 +205,7 @@ def build_primal(rng):
             covers[i] = cov
         kwargs['covers'] = covers
     try:
-        with warnings.catch_warnings():
+        with warnings.catch_warnings(), adversarial_globals(settings):
             warnings.simplefilter('ignore')
             con = cl.PrimalSageCone(c, alpha_np, X, 'con', **kwargs)
     except RuntimeError as e:
@@ -179,7 +222,7 @@ def build_primal(rng):
     lifted_n = con._lifted_n
     dummy = int(ScalarVariable.curr_variable_count()) - 1
     ccells = [c08.cell_desc(se) for se in con.c.flat]
-    with warnings.catch_warnings():
+    with warnings.catch_warnings(), adversarial_globals(settings):
         warnings.simplefilter('ignore')
         cd = con.conic_form()
     blocks = [block_rows(b) for b in cd]
@@ -212,8 +255,8 @@ def build_dual(rng):
     with_c = rng.random() < 0.5
     cv = cl.Variable(shape=(2,), name='cvar')
     cvals = gen_c(rng, m, [cv[0], cv[1]]) if with_c else None
-    settings = {'compact_dual': rng.random() < 0.6, 'presolve_trivial_age_cones': rng.random() < 0.25,
-                'heuristic_reduction': rng.random() < 0.7}
+    settings = full_settings({'compact_dual': rng.random() < 0.6, 'presolve_trivial_age_cones': rng.random() < 0.25,
+                              'heuristic_reduction': rng.random() < 0.7, 'sum_age_force_equality': rng.random() < 0.5})
     kwargs = {'settings': settings}
     if with_c:
         kwargs['c'] = Expression(cvals)
@@ -227,7 +270,7 @@ def build_dual(rng):
             covers[i] = cov
         kwargs['covers'] = covers
     try:
-        with warnings.catch_warnings():
+        with warnings.catch_warnings(), adversarial_globals(settings):
             warnings.simplefilter('ignore')
             con = cl.DualSageCone(v, alpha_np, X, 'dcon', **kwargs)
     except RuntimeError as e:
@@ -244,7 +287,7 @@ def build_dual(rng):
     dummy = int(ScalarVariable.curr_variable_count()) - 1
     vcells = [c08.cell_desc(se) for se in Expression(con.v).flat]
     ccells = vlib.Some([c08.cell_desc(se) for se in con.c.flat]) if with_c else None
-    with warnings.catch_warnings():
+    with warnings.catch_warnings(), adversarial_globals(settings):
         warnings.simplefilter('ignore')
         cd = con.conic_form()
     blocks = [block_rows(b) for b in cd]
@@ -262,16 +305,45 @@ T_DUAL_IN = ('nat * nat * list (list Q) * list sexpr * option (list sexpr) * opt
              '* list (list bool) * list (list Z * list Z) * bool * Z')
 
 
-def sample_domain_point(rng, n, kind):
-    """a point of X (exactly feasible by construction), with lifted coordinates if any"""
-    for _ in range(200):
+def sample_domain_point(rng, n, kind, X=None):
+    """a point of X (exactly feasible by construction), with lifted coordinates if any; membership of the grid point is decided on
+    the domain's own (A, b, K) when X is given"""
+    from harness.props.c07 import in_cone
+    for _ in range(300):
         x = [rng.randint(-4, 4) / 2.0 for _ in range(n)]
         if kind == 'none':
             return x, []
-        if kind == 'box' and all(-1 <= xi <= 2 for xi in x):
+        if kind == 'lifted':
+            if abs(x[0]) <= 2:
+                return x, [abs(x[0]) + 0.0]
+            continue
+        if X is None:
+            if kind == 'box' and all(-1 <= xi <= 2 for xi in x):
+                return x, []
+            if kind == 'ball' and sum(xi * xi for xi in x) <= 4:
+                return x, []
+            continue
+        A, b, K = np.asarray(X.A, dtype=float), np.asarray(X.b, dtype=float), X.K
+        i = 0
+        for co in K:      # solve equality rows for their leading coordinate
+            if co.type == '0':
+                for r in range(i, i + co.len):
+                    nz = [j for j in range(n) if A[r, j] != 0]
+                    if nz:
+                        j = nz[0]
+                        x[j] = -(b[r] + sum(A[r, k] * x[k] for k in range(n) if k != j)) / A[r, j]
+            i += co.len
+        v = A[:, :n] @ np.array(x) + b
+        i, ok = 0, True
+        for co in K:
+            blk = v[i:i + co.len].tolist()
+            if co.type == '0':
+                ok = ok and all(t == 0 for t in blk)
+            elif co.type == 'e':
+                ok = ok and blk[2] > 0 and blk[2] * math.exp(blk[0] / blk[2]) <= blk[1] * (1 - 1e-9)
+            else:
+                ok = ok and in_cone(co.type, blk)
+            i += co.len
+        if ok:
             return x, []
-        if kind == 'ball' and sum(xi * xi for xi in x) <= 4:
-            return x, []
-        if kind == 'lifted' and abs(x[0]) <= 2:
-            return x, [abs(x[0]) + 0.0]
     return None, None
